@@ -129,6 +129,10 @@ class BGP(protocol.Protocol):
                 error_str = traceback.format_exc()
                 LOG.debug(error_str)
                 self.factory.bgp_id = int(netaddr.IPAddress('127.0.0.1'))
+        # nothing is known yet about the capabilities of the peer of a new
+        # connection; what an earlier session's peer advertised must not be
+        # negotiated into the OPEN of this one
+        cfg.CONF.bgp.running_config['capability']['remote'] = {}
         try:
             self.fsm.connection_made()
         except Exception as e:
